@@ -763,6 +763,53 @@ func ruleC06Release(w *World, r *Report) {
 		as := symOf(s.Common().Args[1]).String()
 		r.check(strings.Contains(as, "GetSession#0("), "R06.6", hn, "the released addresses are those of the deleted session", w.Pos(si.Pos()), as, "release is applied to "+as)
 	}
+	// who may release: only the places where a session ends. The address belongs to the session (it is
+	// keyed by the SEID), not to a PDR: releasing it while the session lives hands it to another session.
+	relSites := map[string]string{
+		"pfcpiface.(*PFCPConn).handleSessionEstablishmentRequest$":  "abort of a session that was not accepted",
+		"pfcpiface.(*PFCPConn).handleSessionDeletionRequest":        "session deletion",
+		"pfcpiface.(*PFCPConn).handleSessionReportResponse":         "session dropped after 'context not found'",
+		"pfcpiface.(*PFCPConn).shutdownConn":                        "association teardown",
+		"pfcpiface.(*PFCPConn).Shutdown":                            "association teardown",
+		"pfcpiface.releaseAllocatedIPs":                             "the release helper itself",
+	}
+	nSites := 0
+	for _, callee := range []*ssa.Function{dealloc0(w, P), rel} {
+		for _, e := range w.CG().callersOf(callee) {
+			cn := w.FuncName(e.Caller)
+			if strings.HasPrefix(cn, "test/") {
+				continue
+			}
+			nSites++
+			okS := false
+			for k := range relSites {
+				if cn == k || (strings.HasSuffix(k, "$") && strings.HasPrefix(cn, k)) {
+					okS = true
+				}
+			}
+			r.check(okS, "R06.6", cn, "a UE address is released only where its session ends", w.Pos(e.Site.Pos()), "session-ending site", cn+" releases a UE address although the session goes on (e.g. when one of its PDRs is removed): the address is handed to another session while this one still uses it")
+		}
+	}
+	r.floor("R06.6 release call sites", nSites, 5)
+	// the abort of a rejected establishment releases by SEID, not through the PDR list: the PDR that
+	// triggered the allocation is not in the list yet when it is the one that gets the request rejected
+	est := w.Fn(P, "pfcpiface.(*PFCPConn).handleSessionEstablishmentRequest")
+	direct := 0
+	for _, g := range withClosures(est) {
+		if g == est {
+			continue
+		}
+		for _, c := range callsTo(g, dealloc0(w, P)) {
+			ks := symOf(c.Common().Args[1]).String()
+			if strings.HasSuffix(ks, "localSEID") {
+				direct++
+			}
+		}
+		for _, c := range callsTo(g, rel) {
+			r.bad("R06.6", w.FuncName(g), "the abort of a rejected establishment releases the address by SEID", w.Pos(c.Pos()), "the abort path releases through releaseAllocatedIPs, which only looks at the PDRs already added to the session: when the PDR that allocated the address is itself the reason for the reject (it is not in the list yet) the address leaks")
+		}
+	}
+	r.check(direct >= 1, "R06.6", w.FuncName(est), "the abort of a rejected establishment releases the address by SEID", w.Pos(est.Pos()), "DeallocIP(session.localSEID) in the abort closure", "the abort path of the establishment handler no longer calls DeallocIP(session.localSEID)")
 	// releaseAllocatedIPs: every PDR with allocIPFlag is given back under the session's id
 	dealloc := w.Fn(P, "pfcpiface.(*IPPool).DeallocIP")
 	n := 0
@@ -773,4 +820,9 @@ func ruleC06Release(w *World, r *Report) {
 		r.check(strings.HasSuffix(ks, "localSEID"), "R06.6", w.FuncName(rel), "release uses the session's own id (the allocation key)", w.Pos(call.Pos()), ks, "DeallocIP is called with "+ks)
 	}
 	r.floor("R06.6 DeallocIP call in releaseAllocatedIPs", n, 1)
+}
+
+
+func dealloc0(w *World, prop string) *ssa.Function {
+	return w.Fn(prop, "pfcpiface.(*IPPool).DeallocIP")
 }
